@@ -80,9 +80,9 @@ def to_coq_case(rec):
     pc = _PC[i["pc"] if 0 <= i["pc"] <= 2 else 0]
     value = int(i["value"]) if i["kind"] in ("top", "tx", "call", "callcode") else 0
     return ("{| c_reached := %s; c_pc := %s; c_kind := %s; c_value := %s; c_gas := %s; c_inp := %s; "
-            "o_class := %s; o_left := %s; o_state_eq := %s; o_core_eq := %s; o_oog_panic := %s |}") % (
+            "o_class := %s; o_left := %s; o_state_eq := %s; o_core_eq := %s; o_oog_panic := %s; o_mint_panic := %s |}") % (
         _b(o["reached"]), pc, _KIND.get(i["kind"], "KTop"), _z(value), _z(o["fwd"]), inp,
-        _CLASS.get(o["class"], "Err"), _z(o["left"]), _b(o["state_eq"]), _b(o["core_eq"]), _b(o["panic_oog"]))
+        _CLASS.get(o["class"], "Err"), _z(o["left"]), _b(o["state_eq"]), _b(o["core_eq"]), _b(o["panic_oog"]), _b(o.get("panic_int")))
 
 
 def nontrivial(rec):
@@ -123,6 +123,8 @@ def signature(rec):
             cls = "sdk.ErrorOutOfGas"
         elif "invalid StringKey: invalid null character" in nt:
             cls = "collections-string-key-nul"
+        elif o.get("panic_int") or "integer overflow" in nt:
+            cls = "sdkmath-integer-overflow"
         elif "slice bounds out of range" in nt:
             cls = "slice-bounds"
         elif "invalid denom" in nt:
@@ -174,10 +176,37 @@ def shrink_candidates(inp):
 MANIFEST = {
     "level_claimed": {
         "category": "proof",
-        "text": "filled in below",
+        "text": ("Coq theorems over an executable model of one precompile call (geth's Call/StaticCall/DelegateCall/CallCode wrapper + "
+                 "runPrecompiledContract, requiredGas with Go slice-capacity semantics, decomposeInput, OnRunStart's local gas meter, "
+                 "HandleOutOfGasPanic, the three Run dispatchers and the guard/validator prefix of all 14 method handlers), quantified "
+                 "over every facts record, every keeper-level body (any outcome, gas and state writes), every calldata length / selector / "
+                 "ABI-decoder result, call kind, value and gas: C08_gas_bounded (0 <= gas left <= forwarded), C08_error_leaves_no_state "
+                 "(error or out-of-gas => state exactly as before and all gas consumed), C08_static_never_mutates (read-only call kinds: "
+                 "state unchanged, every non-view method refused), C08_query_never_mutates / C08_guarded_query_never_mutates, "
+                 "C08_no_panic_partial (every modelled panic source - input[:4], sdk.NewCoin, NewIntFromBigInt, collections string keys, "
+                 "256-bit bank supply under MintCoins, the gas meter panic - is unreachable behind its guard), C08_model_satisfies_property "
+                 "(the trace predicate Pb checks holds of every model run). The facts (ABI methods and selectors from the embedded JSON, "
+                 "isMutation table, per-handler guard and its position, dispatch, the six panic guards, geth's read-only arguments) are "
+                 "re-extracted from /repo and the go-ethereum fork on every run and the instantiated theorems C08_holds_for_current_tree / "
+                 "C08_current_*_ok are re-checked. Refutation witnesses are proved for the tree before each of the four fix: commits. "
+                 "The model is run against the implementation on ~640 generated calls per quick run (structure-aware hostile calldata x "
+                 "6 call kinds x value x gas boundaries, plus a method x call-kind matrix and 15 DeliverTx cases): outcome class and gas "
+                 "handed back must agree exactly, and the proved-sound checker Pb is evaluated on the implementation traces with a digest "
+                 "of the bank/evm/wasm/oracle stores before and after."),
         "design_ref": "DESIGN.md §5 C08",
     },
-    "level_note": "filled in below",
+    "level_note": ("PARTIAL as planned: Go-level panic freedom is carried by explicit Panic outcomes at the library calls the model lists; a "
+                   "panic source inside a keeper body that the model does not list can only be found by the calldata generator (that is how "
+                   "findings 1, 3 and 4 were found, each then added to the model with a refutation witness). On this tree the clause "
+                   "'state-changing methods are refused in static context' holds for the DIRECT call kinds (STATICCALL, DELEGATECALL, CALLCODE "
+                   "to the precompile) only: a CALL issued below a STATICCALL frame reaches mutating methods because the go-ethereum fork's "
+                   "EVM.Call passes readOnly=false (OPEN known finding, C08_nested_static_refuted / C08_nested_static_status_on_current_tree; "
+                   "C08_nested_static_if_inherited proves the clause once the flag is handed down). Hypotheses of the theorems: keeper query "
+                   "APIs behind view methods do not write (query_bodies_readonly; checked per case by the store digest), the ABI decoder "
+                   "returns values within their Solidity ranges (input_wf). State reversal on error is C04's StateDB snapshot, modelled as "
+                   "restoring the pre-call state. Trusted: Coq kernel + vm_compute; the go/ast extractor harness/gen/c08 (textual normal forms) "
+                   "and geth accounts/abi; the driver's decode facts (geth ABI decoder, bech32 / tokenfactory / JSON validity bits) and store "
+                   "digest. Not modelled: the ABI decoder itself, keeper bodies, uint64 overflow in requiredGas, depth/balance rejections."),
     "technique": "Coq proof over a model of the geth precompile wrapper + Nibiru dispatch/guard code parameterised by generated facts; "
-                 "differential correspondence on generated calldata",
+                 "differential correspondence (model executed per case) on generated calldata; refutation witnesses by vm_compute",
 }
